@@ -1938,6 +1938,8 @@ def jobs_for(tier):
     # ---- csv
     for g, (spec, sep, quote, esc, term) in CSV_GRAMMARS.items():
         cells = ["", "a", sep, quote, "\n", "é"] + ([esc] if esc else [])
+        if g == "default":
+            cells = cells + ["\r", "a\rb"]          # a bare carriage return inside a field must be quoted by the writer too
         J.append(("csv", "job_csv", ("asan", g, cells, 2, 0, 10 ** 9)))
     if not q:
         cells = ["", "a", ",", '"', "\n", "é"]
